@@ -149,6 +149,7 @@ struct Obj {
 
   // Function
   bool is_inline;
+  bool is_static_spec;
   Obj *params;
   Node *body;
   Obj *locals;
